@@ -89,7 +89,7 @@ def prepare_aspirate_dispense_parameters(
 
     if position is None:
         raise ValueError("Missing required parameter: position")
-    if not isinstance(position, int) or isinstance(position, bool) or position < 0:
+    if not isinstance(position, int) or isinstance(position, bool) or position < 1:
         raise ValueError(f"Invalid position: {position}")
 
     if volume is None:
